@@ -9,6 +9,7 @@ import (
 	"strings"
 
 	"golang.org/x/tools/go/ssa"
+	"golang.org/x/tools/go/ssa/ssautil"
 )
 
 // Term is the symbolic origin of an SSA value (DESIGN P2). Rules compare
@@ -73,13 +74,90 @@ func calleeName(cc *ssa.CallCommon) string {
 	}
 	switch v := cc.Value.(type) {
 	case *ssa.Function:
+		if clockHelper(v) {
+			return "time.Now"
+		}
 		return funcShort(v)
 	case *ssa.Builtin:
 		return "builtin " + v.Name()
 	case *ssa.MakeClosure:
 		return funcShort(v.Fn.(*ssa.Function))
+	case *ssa.UnOp:
+		// a test seam: a package-level func variable that only the package initialiser assigns, to a
+		// named function (var osRemove = os.Remove) — a call through it is a call of that function
+		if g, ok := v.X.(*ssa.Global); ok && v.Op == token.MUL {
+			if f := seamTarget(g); f != nil {
+				return funcShort(f)
+			}
+		}
 	}
 	return "dynamic"
+}
+
+// isSeamCall: the call goes through a package-level func variable that stands for one named function.
+func isSeamCall(cc *ssa.CallCommon) bool {
+	if ld, ok := cc.Value.(*ssa.UnOp); ok && ld.Op == token.MUL {
+		if g, ok := ld.X.(*ssa.Global); ok {
+			return seamTarget(g) != nil
+		}
+	}
+	return false
+}
+
+var (
+	seamOnce  = map[*ssa.Program]bool{}
+	seamCache = map[*ssa.Global]*ssa.Function{}
+)
+
+// seamTarget: g is a package-level func variable with exactly one store in the whole program — the
+// package initialiser's, of a function — returns that function.
+func seamTarget(g *ssa.Global) *ssa.Function {
+	if g.Pkg == nil {
+		return nil
+	}
+	prog := g.Pkg.Prog
+	if !seamOnce[prog] {
+		seamOnce[prog] = true
+		type rec struct {
+			n    int
+			fn   *ssa.Function
+			init bool
+		}
+		stores := map[*ssa.Global]*rec{}
+		for f := range ssautil.AllFunctions(prog) {
+			for _, b := range f.Blocks {
+				for _, in := range b.Instrs {
+					st, ok := in.(*ssa.Store)
+					if !ok {
+						continue
+					}
+					gg, ok := st.Addr.(*ssa.Global)
+					if !ok {
+						continue
+					}
+					r := stores[gg]
+					if r == nil {
+						r = &rec{}
+						stores[gg] = r
+					}
+					r.n++
+					val := st.Val
+					if ct, isCT := val.(*ssa.ChangeType); isCT {
+						val = ct.X
+					}
+					if fv, isF := val.(*ssa.Function); isF && f.Name() == "init" && f.Parent() == nil {
+						r.fn, r.init = fv, true
+					}
+				}
+			}
+		}
+		for gg, r := range stores {
+			if r.n == 1 && r.init && r.fn != nil {
+				seamCache[gg] = r.fn
+			}
+		}
+	}
+	return seamCache[g]
 }
 
 func funcShort(f *ssa.Function) string {
@@ -253,9 +331,12 @@ func (tb *Terms) of(v ssa.Value, d int) *Term {
 		if x.Call.IsInvoke() {
 			t.Args = append(t.Args, tb.of(x.Call.Value, d+1))
 		} else if _, ok := x.Call.Value.(*ssa.Function); !ok {
-			if _, ok := x.Call.Value.(*ssa.Builtin); !ok {
+			if _, ok := x.Call.Value.(*ssa.Builtin); !ok && !isSeamCall(&x.Call) {
 				t.Args = append(t.Args, tb.of(x.Call.Value, d+1))
 			}
+		}
+		if sc, ok := x.Call.Value.(*ssa.Function); ok && clockHelper(sc) {
+			return t // the node's clock: time.Now() unless a test substituted it
 		}
 		for _, a := range x.Call.Args {
 			t.Args = append(t.Args, tb.of(a, d+1))
@@ -685,4 +766,50 @@ func initTypeOf(g *ssa.Global) ssa.Value {
 	}
 	initTypeOfCache[g] = call
 	return call
+}
+
+var clockHelperMemo = map[*ssa.Function]bool{}
+
+// clockHelper: a method of package eventlogger without parameters that returns the current time —
+// every return is time.Now() or the result of calling a func-typed field of the receiver (a clock a
+// test can substitute, as gated.Filter.NowFunc): func (fs *FileSink) now() time.Time.
+func clockHelper(fn *ssa.Function) bool {
+	if v, ok := clockHelperMemo[fn]; ok {
+		return v
+	}
+	res := func() bool {
+		if fn == nil || fn.Blocks == nil || fn.Pkg == nil || fn.Pkg.Pkg.Path() != PkgRoot || fn.Signature.Recv() == nil || len(fn.Params) != 1 {
+			return false
+		}
+		if fn.Signature.Results().Len() != 1 || fn.Signature.Results().At(0).Type().String() != "time.Time" {
+			return false
+		}
+		n := 0
+		for _, ret := range Returns(fn) {
+			rv := RetVals(ret)
+			if len(rv) != 1 {
+				return false
+			}
+			call, ok := rv[0].(*ssa.Call)
+			if !ok {
+				return false
+			}
+			if f, isF := call.Call.Value.(*ssa.Function); isF && f.String() == "time.Now" {
+				n++
+				continue
+			}
+			ld, isLd := call.Call.Value.(*ssa.UnOp)
+			if !isLd || ld.Op != token.MUL {
+				return false
+			}
+			fa, isFA := ld.X.(*ssa.FieldAddr)
+			if !isFA || fa.X != ssa.Value(fn.Params[0]) {
+				return false
+			}
+			n++
+		}
+		return n > 0
+	}()
+	clockHelperMemo[fn] = res
+	return res
 }
